@@ -58,4 +58,84 @@ Section DefaultRetain.
 
   Definition retain_default (order : list K) (m : M) : res M :=
     retain_default_loop order m mempty.
+
+  (** The repaired default (fix for D3): bind in rounds; a key whose bind is
+      rejected (its prerequisites are not bound yet) is retried after the others;
+      panic only when a whole round makes no progress. *)
+  Fixpoint retain_pass (pending : list (K * V)) (new : M) : list (K * V) * M :=
+    match pending with
+    | [] => ([], new)
+    | (k, v) :: ps =>
+        match mbind new k v with
+        | Some new' => retain_pass ps new'
+        | None => let '(rest, n') := retain_pass ps new in ((k, v) :: rest, n')
+        end
+    end.
+
+  Fixpoint retain_rounds (fuel : nat) (pending : list (K * V)) (new : M) : res M :=
+    match pending with
+    | [] => Ok new
+    | _ =>
+        match fuel with
+        | O => OutOfFuel
+        | S f =>
+            let '(rest, new') := retain_pass pending new in
+            if Nat.eqb (length rest) (length pending) then Panic SiteRetainUnwrap
+            else retain_rounds f rest new'
+        end
+    end.
+
+  Definition retain_pending (order : list K) (m : M) : list (K * V) :=
+    flat_map (fun k => match mget m k with Some v => [(k, v)] | None => [] end) order.
+
+  Definition retain_rounds_default (order : list K) (m : M) : res M :=
+    retain_rounds (S (length order)) (retain_pending order m) mempty.
 End DefaultRetain.
+
+(** Operation histories on a bind map (C14). *)
+Section MapOps.
+  Context {K V M : Type}.
+  Variable mget : M -> K -> option V.
+  Variable mbind : M -> K -> V -> option M.
+  Variable mretain : list K -> M -> res M.
+
+  Inductive mop : Type :=
+  | OBind (k : K) (v : V)
+  | OGet (k : K)
+  | ORetain (order : list K).   (* the key set, in its iteration order *)
+
+  Inductive mout : Type :=
+  | RBind (ok : bool)
+  | RGet (v : option V)
+  | RRetain (ok : bool).        (* false = the call panicked; the map is left as it was *)
+
+  Definition mstep (m : M) (op : mop) : M * mout :=
+    match op with
+    | OBind k v =>
+        match mbind m k v with
+        | Some m' => (m', RBind true)
+        | None => (m, RBind false)
+        end
+    | OGet k => (m, RGet (mget m k))
+    | ORetain order =>
+        match mretain order m with
+        | Ok m' => (m', RRetain true)
+        | _ => (m, RRetain false)
+        end
+    end.
+
+  Fixpoint mrun (m : M) (ops : list mop) : list (M * mout) :=
+    match ops with
+    | [] => []
+    | op :: ops' => let '(m', o) := mstep m op in (m', o) :: mrun m' ops'
+    end.
+
+  Definition mfinal (m : M) (ops : list mop) : M :=
+    fold_left (fun m op => fst (mstep m op)) ops m.
+End MapOps.
+Arguments OBind {K V} k v.
+Arguments OGet {K V} k.
+Arguments ORetain {K V} order.
+Arguments RBind {V} ok.
+Arguments RGet {V} v.
+Arguments RRetain {V} ok.
